@@ -338,12 +338,73 @@ def r4_mutable_defaults(R, extra_nodes: Optional[List[ast.AST]] = None) -> None:
     R.ok('fsic/*', f'no mutable default argument in {n} functions')
 
 
-def r5b_no_memoised_mutables(R) -> None:
-    """A memoised function hands the *same* object to every caller: it must not return a mutable container."""
+READERS = ('dict', 'list', 'tuple', 'sorted', 'set', 'frozenset', 'len', 'copy.deepcopy', 'copy.copy', 'deepcopy', 'iter', 'enumerate', 'zip', 'any', 'all', 'sum', 'min', 'max')
+READ_METHODS = ('get', 'items', 'keys', 'values', 'copy', 'index', 'count', '__contains__', '__getitem__')
+
+
+def _uses_of_shared_result(R, name: str):
+    """How the package uses the result of the memoised function `name`: [(function, node, verdict, text)] with verdict
+    'read' (the object is only looked at / copied) or a description of a use that changes or keeps the shared object."""
+    out = []
+    for gi in R.repo.all_functions():
+        par = {}
+        for p_ in ast.walk(gi.node):
+            for c_ in ast.iter_child_nodes(p_):
+                par[id(c_)] = p_
+        muts = None
+        for x in ast.walk(gi.node):
+            if not (isinstance(x, ast.Call) and ((isinstance(x.func, ast.Attribute) and x.func.attr == name) or (isinstance(x.func, ast.Name) and x.func.id == name))):
+                continue
+            if gi.node.name == name:
+                continue
+            up = par.get(id(x))
+            verdict = None
+            if isinstance(up, ast.Dict) and any(k is None and v is x for k, v in zip(up.keys, up.values)):
+                verdict = 'read'    # {**shared, ...}
+            elif isinstance(up, ast.keyword) and up.arg is None:
+                verdict = 'read'    # f(**shared)
+            elif isinstance(up, ast.Starred):
+                verdict = 'read'
+            elif isinstance(up, ast.Call) and x in up.args and (dotted(up.func) or '') in READERS:
+                verdict = 'read'
+            elif isinstance(up, ast.Subscript) and up.value is x and isinstance(up.ctx, ast.Load):
+                verdict = 'read'
+            elif isinstance(up, ast.Attribute) and up.value is x and up.attr in READ_METHODS:
+                verdict = 'read'
+            elif isinstance(up, (ast.For, ast.comprehension)) and up.iter is x:
+                verdict = 'read'
+            elif isinstance(up, ast.Compare) and x in up.comparators and all(isinstance(o, (ast.In, ast.NotIn)) for o in up.ops):
+                verdict = 'read'
+            elif isinstance(up, ast.Assign) and len(up.targets) == 1 and isinstance(up.targets[0], ast.Name):
+                nm = up.targets[0].id
+                bad = None
+                for y in ast.walk(gi.node):
+                    if isinstance(y, (ast.Subscript, ast.Attribute)) and isinstance(y.ctx, (ast.Store, ast.Del)) and isinstance(y.value, ast.Name) and y.value.id == nm:
+                        bad = f'`{text(par.get(id(y), y))[:50]}` stores into it'
+                    if isinstance(y, ast.Call) and isinstance(y.func, ast.Attribute) and isinstance(y.func.value, ast.Name) and y.func.value.id == nm and y.func.attr in MUTATORS:
+                        bad = f'`{text(y)[:50]}` changes it in place'
+                    if isinstance(y, ast.AugAssign) and isinstance(y.target, ast.Name) and y.target.id == nm:
+                        bad = f'`{text(y)[:50]}` changes it in place'
+                    if isinstance(y, ast.Return) and isinstance(y.value, ast.Name) and y.value.id == nm:
+                        bad = f'`{text(y)[:50]}` hands it on to the caller'
+                    if isinstance(y, ast.Assign) and isinstance(y.value, ast.Name) and y.value.id == nm and any(isinstance(t, (ast.Attribute, ast.Subscript)) for t in y.targets):
+                        bad = f'`{text(y)[:50]}` keeps it'
+                verdict = 'read' if bad is None else f'`{text(up)[:50]}` then {bad}'
+            else:
+                verdict = f'`{text(up)[:60] if up is not None else text(x)}` uses the shared object in a way that is not a plain read'
+            out.append((gi, x, verdict))
+    return out
+
+
+def r5b_no_memoised_mutables(R, used_by: Optional[Tuple[str, ...]] = None) -> None:
+    """A memoised function hands the *same* object to every caller: a mutable result must only ever be read.
+    `used_by`: only the memoised functions called from functions of these names (for the properties of one operation)."""
     n = 0
     for fi in R.repo.all_functions():
         decs = [text(d) for d in fi.node.decorator_list]
         if not any(d.split('(')[0].split('.')[-1] in ('lru_cache', 'cache', 'cached_property') for d in decs):
+            continue
+        if used_by is not None and not any(g.node.name in used_by for (g, _x, _v) in _uses_of_shared_result(R, fi.name)):
             continue
         n += 1
         for r in ast.walk(fi.node):
@@ -355,10 +416,25 @@ def r5b_no_memoised_mutables(R) -> None:
                         if isinstance(a, ast.Assign) and any(isinstance(t, ast.Name) and t.id == v.id for t in a.targets) and \
                                 (isinstance(a.value, (ast.Dict, ast.List, ast.Set, ast.DictComp, ast.ListComp, ast.SetComp)) or is_call(a.value, 'dict', 'list', 'set', 'copy.deepcopy')):
                             mutable = True
-                R.check(not mutable, fi.qualname, 'memoised-mutable:' + text(v)[:40], 'memoised functions return immutable values',
-                        f'`{fi.name}` is memoised ({", ".join(decs)}) and returns the mutable object `{text(v)[:40]}`: every caller (every instance) receives the same object',
-                        where=fi.where)
-    R.ok('fsic/*', f'{n} memoised function(s) in the package; none returns a mutable container')
+                if not mutable:
+                    R.check(True, fi.qualname, 'memoised-immutable:' + text(v)[:40], 'memoised functions return immutable values', '', where=fi.where)
+                    continue
+                uses = _uses_of_shared_result(R, fi.name)
+                public = not fi.name.startswith('_')
+                badu = [(g, x, vd) for (g, x, vd) in uses if vd != 'read']
+                if badu:
+                    g, x, vd = badu[0]
+                    R.violation(fi.qualname, 'memoised-mutable-changed:' + g.qualname.split('.')[-1],
+                                f'`{fi.name}` is memoised ({", ".join(decs)}) and returns the mutable object `{text(v)[:40]}`: every caller (every instance) receives the same object, and '
+                                f'{g.qualname.split(".")[-1]}() does not just read it: {vd} - the change is seen by every later call', where=f'{g.module.relpath}:{x.lineno}')
+                elif public or not uses:
+                    R.violation(fi.qualname, 'memoised-mutable:' + text(v)[:40],
+                                f'`{fi.name}` is memoised ({", ".join(decs)}) and returns the mutable object `{text(v)[:40]}`: every caller (every instance) receives the same object',
+                                where=fi.where)
+                else:
+                    R.check(True, fi.qualname, 'memoised-mutable-only-read:' + text(v)[:40],
+                            f'the shared result of the memoised helper is only read or copied at its {len(uses)} call site(s)', '', where=fi.where)
+    R.ok('fsic/*', f'{n} memoised function(s) in the package; no shared mutable result is changed or handed out')
 
 
 def r5_globals_never_written(R) -> None:
